@@ -28,6 +28,18 @@ checks = [
      "Seeded search over sampler configurations and simulated process schedules; every returned row, statistic and final state is compared bitwise with a ground-truth log written at the moment each transition returns; storage variants and the durable disk image are compared too. Sampling of a large configuration x schedule space, not a proof.",
      "Trusted: the recording proxies and the scheduler (self-tested for determinism); workers are threads isolated by pickling; durable image = content at last flush.",
      "deterministic simulation of the process pool with seeded schedules; ground-truth log as reference model", "E2 procsim/chainsim", "DESIGN.md section 5 C13"),
+ chk("C14", "exploration",
+     "For one seed the run is repeated under seeded and adversarial simulated schedules, process counts (incl. None), chain counts and other chains' start points; outputs of the common chains must be bitwise equal and no generator state may repeat among always-drawing transition calls. The schedule space is sampled, not enumerated.",
+     "Trusted: scheduler owns every interleaving at queue operations, worker start/exit and between any two transitions; within a transition a worker is not pre-empted (transitions share no state across workers after pickling).",
+     "deterministic simulation with seeded schedule search; differential comparison across schedules/process counts", "E2 procsim/chainsim", "DESIGN.md section 5 C14"),
+ chk("C15", "fault_enumeration",
+     "For each seeded small configuration every in-iteration user-callback call index k (all k when the run makes <=60 such calls, a seeded subset otherwise) is used once as the crash point of a KeyboardInterrupt, single-task and broadcast; each interrupted run is compared with the uninterrupted run of the same seed.",
+     "Interrupts arrive only where user code runs inside an iteration (the property's quantifier). Durable image = content at last flush. Broadcast delivery to workers is deferred to their next in-iteration callback.",
+     "crash-point enumeration under deterministic simulation; prefix-consistency oracle against the uninterrupted run", "E2 procsim/chainsim", "DESIGN.md section 5 C15"),
+ chk("C16", "exploration",
+     "Seeded runs with recording adapters and transitions: the stage list as run must partition the iterations, parameters must be frozen in the main stage and equal to what the last stage with >=1 update finalized, empty stages must change nothing; plus direct drive of the stagers over seeded settings.",
+     "Parameters observed are step size, metric (dense fingerprint) and the random-walk scale of the generic sampler; other transition attributes are not watched.",
+     "deterministic simulation with recording adapters; stage/parameter timeline invariants", "E2 procsim/chainsim", "DESIGN.md section 5 C16"),
 ]
 
 m = {
